@@ -551,7 +551,56 @@ def sh6(prog):
             if init[0] != "param":
                 errs.append("?the fold starts from %s" % show(init)[:40])
             if not ups or any(not (mir.is_call(u, cs.callee.name) and strip(u[2][1]) == acc) for u in ups):
-                errs.append("?the loop-carried diagram is not updated by the conditioning step alone")
+                # some iterations leave the diagram as it is: a literal may be passed over only when its variable cannot
+                # occur — the diagram is constant, or the variable comes *strictly* before the root in the order
+                from .fd import alts as _alts, key_of as _key
+                skip_errs, n_skip, other = [], 0, 0
+                edges = [ub for (ub, hb) in g.cfg.back_edges if hb == acc[1] and ub in te.state_out]
+                raw_ups = te.mu_update.get((acc[1], acc[2]), [])
+                for k_, u in enumerate(raw_ups):
+                    # the facts that hold where this back edge leaves the loop body (`continue` under a guard)
+                    base = tuple((c, v) for c, v, _, _ in te.facts_at(edges[k_])) if k_ < len(edges) else ()
+                    for leaf, facts in _alts(te, u, base):
+                        l0 = strip(leaf)
+                        if mir.is_call(l0, cs.callee.name) and strip(l0[2][1]) == acc:
+                            continue
+                        if l0 != acc:
+                            other += 1
+                            continue
+                        n_skip += 1
+                        ok_ = None
+                        for c, v in facts:
+                            c0 = strip(c)
+                            truth = None if v not in ("0", "1", ("not", ("0",)), ("not", ("1",))) else (v in ("1", ("not", ("0",))))
+                            if c0[0] == "discr" and "var_safe" in _key(c0) and v in ("0", ("not", ("1",))):
+                                ok_ = True            # a constant diagram
+                            if mir.is_call(c0) and c0[1].name in ("is_const", "is_true", "is_false") and truth:
+                                ok_ = True
+                            if mir.is_call(c0) and c0[1].name in ("lt", "lte") and len(c0[2]) >= 3 and truth is not None:
+                                a_, b_ = _key(c0[2][-2]), _key(c0[2][-1])
+                                lab_first = "label(" in a_ and "label(" not in b_
+                                top_first = "label(" in b_ and "label(" not in a_
+                                strict = c0[1].name == "lt"
+                                if lab_first:         # lt/lte(label, top)
+                                    good = truth and strict
+                                    bad_eq = truth and not strict
+                                elif top_first:       # lt/lte(top, label) false  ⇒  label <(=) top
+                                    good = (not truth) and not strict
+                                    bad_eq = (not truth) and strict
+                                else:
+                                    continue
+                                if good:
+                                    ok_ = True if ok_ is None else ok_
+                                elif bad_eq:
+                                    ok_ = False
+                                    skip_errs.append("a literal is passed over when its variable does not come after the root's (`%s` is %s): "
+                                                     "that includes the literal on the root variable itself, which is then not conditioned "
+                                                     "on" % (_key(c0)[:50], str(truth).lower()))
+                        if ok_ is None:
+                            skip_errs.append("?a literal is passed over for a reason that is not read here")
+                if other or not n_skip:
+                    errs.append("?the loop-carried diagram is not updated by the conditioning step alone")
+                errs += skip_errs
             if strip(te.ret) != acc and not any(strip(x) == acc for x in mir.subterms(te.ret)):
                 errs.append("the function does not return the diagram it has conditioned (%s)" % show(te.ret)[:40])
         elif acc[0] == "param" and g.kind == "Closure":
